@@ -271,3 +271,14 @@ def rule_deps(ctx):
 
 
 RULES.append(("C08.j", "the queue yields the smallest key first, FIFO among equal keys (C20.a/b): an accepted request fires at its deadline", rule_deps))
+
+
+def rule_time_cell(ctx):
+    from . import c15, inventory
+    c15.rule_a(ctx)
+    c15.rule_b(ctx)
+    c15.rule_time_cell_fields(ctx)
+    inventory.check_narrowing(ctx)
+
+
+RULES.append(("C08.k", "the time a scheduling request is validated against is the simulation time: untorn reads (C15.a/b), unconverted components of the time cell, no narrowed integer", rule_time_cell))
